@@ -86,10 +86,28 @@ class LoopRun:
         exc = context.get('exception')
         self.unhandled.append(f"{context.get('message')}: {type(exc).__name__ if exc else ''} {exc!r}")
 
+    def _track(self, loop):
+        """remember every task so that 'exception was never retrieved' is detected without waiting for the garbage collector"""
+        self._tasks = []
+
+        def factory(lp, coro, **kw):
+            t = asyncio.Task(coro, loop=lp, **kw)
+            self._tasks.append(t)
+            return t
+        loop.set_task_factory(factory)
+
+    def _sweep(self):
+        for t in getattr(self, '_tasks', []):
+            if t.done() and not t.cancelled() and getattr(t, '_log_traceback', False):
+                exc = t.exception()          # marks it retrieved: reported here instead of at destruction
+                self.unhandled.append(f'Task exception was never retrieved: {type(exc).__name__} {exc!r}')
+        self._tasks = []
+
     def run(self, coro_fn, timeout=20.0):
         loop = asyncio.new_event_loop()
         self.loop = loop
         loop.set_exception_handler(self._handler)
+        self._track(loop)
         try:
             asyncio.set_event_loop(loop)
             return loop.run_until_complete(asyncio.wait_for(coro_fn(), timeout))
@@ -101,6 +119,7 @@ class LoopRun:
                 if pending:
                     loop.run_until_complete(asyncio.gather(*pending, return_exceptions=True))
                 loop.run_until_complete(loop.shutdown_asyncgens())
+                self._sweep()
             finally:
                 asyncio.set_event_loop(None)
                 loop.close()
@@ -146,6 +165,7 @@ class VirtualLoopRun(LoopRun):
         loop = VirtualLoop()
         self.loop = loop
         loop.set_exception_handler(self._handler)
+        self._track(loop)
         try:
             asyncio.set_event_loop(loop)
             main = loop.create_task(coro_fn())
@@ -165,6 +185,7 @@ class VirtualLoopRun(LoopRun):
                 if pending:
                     loop.run_until_complete(asyncio.gather(*pending, return_exceptions=True))
                 loop.run_until_complete(loop.shutdown_asyncgens())
+                self._sweep()
             finally:
                 asyncio.set_event_loop(None)
                 loop.close()
